@@ -1,7 +1,7 @@
 import PdshVerif.Dsh.TimedProj
 
 /-! # Timed LTS: how the worker program counters move (Fan side) and per-host invariants -/
-namespace PdshVerif.Dsh.Fan
+namespace PdshVerif.Dsh.FanG
 
 /-- effect of a worker step on all program counters -/
 theorem pc_step_w {s s' : St} {k : Nat} {a : WAct} (hs : step s (.w k a) = some s') :
@@ -39,7 +39,7 @@ theorem pc_step_d {s s' : St} {a : DAct} (hi : Inv s) (hs : step s (.d a) = some
     have : pc s' i = pc s i := pc_congr hws i
     cases a <;> simp_all
 
-end PdshVerif.Dsh.Fan
+end PdshVerif.Dsh.FanG
 
 namespace PdshVerif.Dsh.Timed
 open PdshVerif.Dsh
